@@ -281,7 +281,7 @@ def init_val(f):
     return ('w', 0)
 
 
-def rand_val(rng, schema, f, depth, big=False):
+def rand_val(rng, schema, f, depth, big=False, budget=None):
     t = f.type
     if t == T_STRING:
         return ('str', 'S', rand_bytes(rng, rand_len(rng, big), nonul=True))
@@ -291,7 +291,7 @@ def rand_val(rng, schema, f, depth, big=False):
             return ('bin', 0, 'N', b'') if rng.random() < 0.7 else ('bin', 0, 'B', b'')
         return ('bin', n, 'B', rand_bytes(rng, n))
     if t == T_MESSAGE:
-        return ('msg', rand_msg(rng, schema, f.sub, depth + 1, big))
+        return ('msg', rand_msg(rng, schema, f.sub, depth + 1, big, budget=budget))
     return ('w', rand_scalar(rng, t))
 
 
@@ -319,8 +319,11 @@ def rand_unknown(rng, m, big=False):
     return out
 
 
-def rand_msg(rng, schema, ty, depth=0, big=False, unknown=True):
-    """a WELL-FORMED message: absent fields hold their initial values, counts match arrays, ..."""
+def rand_msg(rng, schema, ty, depth=0, big=False, unknown=True, budget=None):
+    """a WELL-FORMED message: absent fields hold their initial values, counts match arrays, ...
+    `budget` (a one-element list) bounds the total number of values generated for one message tree."""
+    if budget is None:
+        budget = [400 if big else 150]
     m = schema.msgs[ty]
     slots = []
     cases = {}
@@ -328,7 +331,8 @@ def rand_msg(rng, schema, ty, depth=0, big=False, unknown=True):
         members = [f for f in m.fields if f.group == g]
         cases[g] = 0 if (rng.random() < 0.3 or depth > 3) else rng.choice(members).id
     for f in m.fields:
-        deep = depth >= 3
+        budget[0] -= 1
+        deep = depth >= 3 or budget[0] <= 0
         if f.oneof:
             c = cases[f.group]
             if c == f.id:
@@ -337,11 +341,13 @@ def rand_msg(rng, schema, ty, depth=0, big=False, unknown=True):
                     cases[f.group] = 0
                     slots.append(['one', 0, ('zero',)])
                 else:
-                    slots.append(['one', c, rand_val(rng, schema, f, depth, big)])
+                    slots.append(['one', c, rand_val(rng, schema, f, depth, big, budget)])
             else:
                 slots.append(['one', c, ('zero',)])
         elif f.label == L_REP:
             n = 0 if (deep and f.type == T_MESSAGE) else rng.choice([0, 0, 1, 1, 2, 3, 5])
+            if budget[0] <= 0:
+                n = 0
             if big and f.type in PACKABLE and rng.random() < 0.1:
                 n = rng.choice([12, 13, 32, 64, 127, 128, 129])
             if n == 0:
@@ -350,23 +356,23 @@ def rand_msg(rng, schema, ty, depth=0, big=False, unknown=True):
                 if f.type in (T_INT32, T_ENUM) and rng.random() < 0.3:
                     vals = [('w', rng.choice([0xffffffff, 0x80000000, 0xfffffffe])) for _ in range(n)]   # 10-byte elements
                 else:
-                    vals = [rand_val(rng, schema, f, depth, big) for _ in range(n)]
+                    vals = [rand_val(rng, schema, f, depth, big, budget) for _ in range(n)]
                 slots.append(['rep', n, vals])
         elif f.label == L_REQ:
             if f.type == T_MESSAGE and deep:
                 # required sub-message beyond the depth limit: still needed; build a minimal one
-                slots.append(['one', 0, ('msg', rand_msg(rng, schema, f.sub, depth + 1, big))])
+                slots.append(['one', 0, ('msg', rand_msg(rng, schema, f.sub, depth + 1, big, budget=budget))])
             else:
-                slots.append(['one', 0, rand_val(rng, schema, f, depth, big)])
+                slots.append(['one', 0, rand_val(rng, schema, f, depth, big, budget)])
         elif f.label == L_OPT:
             present = rng.random() < 0.6 and not (deep and f.type == T_MESSAGE)
             if f.type in (T_STRING, T_MESSAGE):
-                slots.append(['one', 0, rand_val(rng, schema, f, depth, big) if present else init_val(f)])
+                slots.append(['one', 0, rand_val(rng, schema, f, depth, big, budget) if present else init_val(f)])
             else:
-                slots.append(['one', 1 if present else 0, rand_val(rng, schema, f, depth, big) if present else init_val(f)])
+                slots.append(['one', 1 if present else 0, rand_val(rng, schema, f, depth, big, budget) if present else init_val(f)])
         else:  # L_NONE
             present = rng.random() < 0.6 and not (deep and f.type == T_MESSAGE)
-            slots.append(['one', 0, rand_val(rng, schema, f, depth, big) if present else init_val(f)])
+            slots.append(['one', 0, rand_val(rng, schema, f, depth, big, budget) if present else init_val(f)])
     # fix up cases changed while iterating
     for i, f in enumerate(m.fields):
         if f.oneof:
@@ -534,7 +540,7 @@ def is_present(f, s):
     if t == T_STRING:
         return not (v[0] == 'zero' or v[1] == 'N' or len(v[2]) == 0)
     if t == T_BYTES:
-        return not (v[0] == 'zero' or v[2] == 'N')
+        return not (v[0] == 'zero' or v[1] == 0)      # field_is_zeroish reads the first word: len
     if t == T_MESSAGE:
         return not absent_ptr
     x = 0 if v[0] == 'zero' else v[1]
